@@ -134,7 +134,7 @@ def stream_settings(ctx, res, printed):
                          tuple((rng.choice([0, 1, 2.5, 5, 10]), 2) for _ in range(4)) if pad else None,
                          (h, v), None)
                     cases.append((l, rng.random() < 0.5, False, (None, None)))
-    for _ in range(ctx.n(2500, 60000)):
+    for _ in range(ctx.n(2300, 60000)):
         r = rng.random()
         if r < 0.6:
             l = posgen.gen_layout(rng, (2,), p_none=0.25)
@@ -699,7 +699,7 @@ def stream_dfxp(ctx, res):
     rng = ctx.rng
     outcomes = {}
     level_sets = [("lang",), ("cap",), ("node",), ("lang", "cap"), ("lang", "node"), ("cap", "node"), ("lang", "cap", "node"), ()]
-    for i in range(ctx.n(450, 12000)):
+    for i in range(ctx.n(400, 12000)):
         levels = level_sets[i % len(level_sets)]
         rel = rng.random() < 0.7
         fit = rng.random() < 0.35
